@@ -24,3 +24,19 @@ Theorem C12_check_deadline_100ms :
 Proof. exact health_check_timeout_agree. Qed.
 Print Assumptions C12_check_deadline_100ms.
 
+
+(* Over EVERY history of health-check outcomes of a term (any length, any mix): with the counter the heartbeat loop
+   keeps (one more per unhealthy result, zero after a healthy one), the regenerated comparison that triggers the
+   demotion holds exactly when the last [thr] results were all unhealthy - so an isolated or separated failure never
+   demotes, and thr consecutive ones always reach the trigger. *)
+Theorem C12_trigger_iff_last_thr_unhealthy :
+  forall outs thr, 1 <= thr ->
+    (gen_health_trips (Z.of_nat (hrun outs)) thr = true <->
+     exists pre, outs = pre ++ List.repeat false (Z.to_nat thr)).
+Proof. exact health_trips_history. Qed.
+Print Assumptions C12_trigger_iff_last_thr_unhealthy.
+
+Example C12_history_example :
+  gen_health_trips (Z.of_nat (hrun [false; false; true; false; false])) 3 = false /\
+  gen_health_trips (Z.of_nat (hrun [false; true; false; false; false])) 3 = true.
+Proof. vm_compute. split; reflexivity. Qed.
